@@ -10,8 +10,9 @@ that no longer reports the defect it once found has lost reach.  Results go to
 import json, os, subprocess, sys, re
 VERIF = os.path.dirname(os.path.dirname(os.path.abspath(__file__)))
 kf = json.load(open(os.path.join(VERIF, "known_findings.json")))
-out = {}
 only = set(sys.argv[1:])
+outp = os.path.join(VERIF, "seeded", "reverts.json")
+out = json.load(open(outp)) if (only and os.path.exists(outp)) else {}
 for e in kf:
     if e.get("status") != "fixed":
         continue
@@ -19,7 +20,12 @@ for e in kf:
         continue
     c = e["commit"]
     patch = "/tmp/revert_%s.diff" % e["id"]
-    d = subprocess.run(["git", "-C", "/repo", "diff", c, c + "~1"], stdout=subprocess.PIPE, text=True).stdout
+    manual = os.path.join(VERIF, "seeded", "reverts", e["id"] + ".manual.diff")
+    if os.path.exists(manual):
+        # later fixes touch the same lines: a hand-made patch removes just this fix
+        d = open(manual).read()
+    else:
+        d = subprocess.run(["git", "-C", "/repo", "diff", c, c + "~1"], stdout=subprocess.PIPE, text=True).stdout
     open(patch, "w").write(d)
     p = subprocess.run("%s/tools/trial.sh %s quick %s" % (VERIF, patch, e["property"]), shell=True, stdout=subprocess.PIPE,
                        stderr=subprocess.STDOUT, text=True, cwd=VERIF)
